@@ -24,7 +24,11 @@ def choose_scenarios(seed, tier):
     taints = sorted(c14gen.TAINTS)
     rnd = vlib.lcg(seed * 104729 + 7)
     if tier != "quick":
-        allsc = [(m, t, g, e) for e in ("call", "go") for g in c14gen.TARGETS for m in mechs for t in taints]
+        allsc = [(m, t, "self", e) for e in ("call", "go") for m in mechs for t in taints]
+        off = rnd(len(taints))
+        for k, m in enumerate(mechs):
+            for j in range(4):
+                allsc.append((m, taints[(off + k * 3 + j * 5) % len(taints)], ("child", "latechild")[j % 2], ("call", "go")[(k + j) % 2]))
         n = 330
         return [allsc[i:i + n] for i in range(0, len(allsc), n)]
     sel = []
